@@ -16,6 +16,7 @@ package logger
 import (
 	"io"
 	"os"
+	"sync"
 	"time"
 
 	"github.com/sirupsen/logrus"
@@ -27,6 +28,16 @@ type daprLogger struct {
 	name string
 	// loger is the instance of logrus logger
 	logger *logrus.Entry
+	// lock protects the logger field: options can be applied to a logger (through the global registry of loggers)
+	// while other goroutines are logging with it
+	lock sync.RWMutex
+}
+
+// entry returns the current logrus entry.
+func (l *daprLogger) entry() *logrus.Entry {
+	l.lock.RLock()
+	defer l.lock.RUnlock()
+	return l.logger
 }
 
 var DaprVersion = "unknown"
@@ -61,12 +72,15 @@ func (l *daprLogger) EnableJSONOutput(enabled bool) {
 	}
 
 	hostname, _ := os.Hostname()
-	l.logger.Data = logrus.Fields{
+	// The fields are replaced by making a new entry: the current one may be in use by a goroutine that is logging
+	l.lock.Lock()
+	l.logger = l.logger.Logger.WithFields(logrus.Fields{
 		logFieldScope:    l.logger.Data[logFieldScope],
 		logFieldType:     LogTypeLog,
 		logFieldInstance: hostname,
 		logFieldDaprVer:  DaprVersion,
-	}
+	})
+	l.lock.Unlock()
 
 	if enabled {
 		formatter = &logrus.JSONFormatter{ //nolint: exhaustruct
@@ -80,12 +94,14 @@ func (l *daprLogger) EnableJSONOutput(enabled bool) {
 		}
 	}
 
-	l.logger.Logger.SetFormatter(formatter)
+	l.entry().Logger.SetFormatter(formatter)
 }
 
 // SetAppID sets app_id field in the log. Default value is empty string.
 func (l *daprLogger) SetAppID(id string) {
+	l.lock.Lock()
 	l.logger = l.logger.WithField(logFieldAppID, id)
+	l.lock.Unlock()
 }
 
 func toLogrusLevel(lvl LogLevel) logrus.Level {
@@ -96,24 +112,24 @@ func toLogrusLevel(lvl LogLevel) logrus.Level {
 
 // SetOutputLevel sets log output level.
 func (l *daprLogger) SetOutputLevel(outputLevel LogLevel) {
-	l.logger.Logger.SetLevel(toLogrusLevel(outputLevel))
+	l.entry().Logger.SetLevel(toLogrusLevel(outputLevel))
 }
 
 // IsOutputLevelEnabled returns true if the logger will output this LogLevel.
 func (l *daprLogger) IsOutputLevelEnabled(level LogLevel) bool {
-	return l.logger.Logger.IsLevelEnabled(toLogrusLevel(level))
+	return l.entry().Logger.IsLevelEnabled(toLogrusLevel(level))
 }
 
 // SetOutput sets the destination for the logs.
 func (l *daprLogger) SetOutput(dst io.Writer) {
-	l.logger.Logger.SetOutput(dst)
+	l.entry().Logger.SetOutput(dst)
 }
 
 // WithLogType specify the log_type field in log. Default value is LogTypeLog.
 func (l *daprLogger) WithLogType(logType string) Logger {
 	return &daprLogger{
 		name:   l.name,
-		logger: l.logger.WithField(logFieldType, logType),
+		logger: l.entry().WithField(logFieldType, logType),
 	}
 }
 
@@ -121,56 +137,56 @@ func (l *daprLogger) WithLogType(logType string) Logger {
 func (l *daprLogger) WithFields(fields map[string]any) Logger {
 	return &daprLogger{
 		name:   l.name,
-		logger: l.logger.WithFields(fields),
+		logger: l.entry().WithFields(fields),
 	}
 }
 
 // Info logs a message at level Info.
 func (l *daprLogger) Info(args ...interface{}) {
-	l.logger.Log(logrus.InfoLevel, args...)
+	l.entry().Log(logrus.InfoLevel, args...)
 }
 
 // Infof logs a message at level Info.
 func (l *daprLogger) Infof(format string, args ...interface{}) {
-	l.logger.Logf(logrus.InfoLevel, format, args...)
+	l.entry().Logf(logrus.InfoLevel, format, args...)
 }
 
 // Debug logs a message at level Debug.
 func (l *daprLogger) Debug(args ...interface{}) {
-	l.logger.Log(logrus.DebugLevel, args...)
+	l.entry().Log(logrus.DebugLevel, args...)
 }
 
 // Debugf logs a message at level Debug.
 func (l *daprLogger) Debugf(format string, args ...interface{}) {
-	l.logger.Logf(logrus.DebugLevel, format, args...)
+	l.entry().Logf(logrus.DebugLevel, format, args...)
 }
 
 // Warn logs a message at level Warn.
 func (l *daprLogger) Warn(args ...interface{}) {
-	l.logger.Log(logrus.WarnLevel, args...)
+	l.entry().Log(logrus.WarnLevel, args...)
 }
 
 // Warnf logs a message at level Warn.
 func (l *daprLogger) Warnf(format string, args ...interface{}) {
-	l.logger.Logf(logrus.WarnLevel, format, args...)
+	l.entry().Logf(logrus.WarnLevel, format, args...)
 }
 
 // Error logs a message at level Error.
 func (l *daprLogger) Error(args ...interface{}) {
-	l.logger.Log(logrus.ErrorLevel, args...)
+	l.entry().Log(logrus.ErrorLevel, args...)
 }
 
 // Errorf logs a message at level Error.
 func (l *daprLogger) Errorf(format string, args ...interface{}) {
-	l.logger.Logf(logrus.ErrorLevel, format, args...)
+	l.entry().Logf(logrus.ErrorLevel, format, args...)
 }
 
 // Fatal logs a message at level Fatal then the process will exit with status set to 1.
 func (l *daprLogger) Fatal(args ...interface{}) {
-	l.logger.Fatal(args...)
+	l.entry().Fatal(args...)
 }
 
 // Fatalf logs a message at level Fatal then the process will exit with status set to 1.
 func (l *daprLogger) Fatalf(format string, args ...interface{}) {
-	l.logger.Fatalf(format, args...)
+	l.entry().Fatalf(format, args...)
 }
